@@ -9,4 +9,7 @@ func init() {
 	reg.Register("rt-run", func(a reg.Args) (interface{}, error) {
 		return rt.Run(a.In, a.Out, a.Seed, a.Sample, a.Reps, a.Workers, a.Only)
 	})
+	reg.Register("rt-xuse", func(a reg.Args) (interface{}, error) {
+		return rt.RunXUse(a.Out, a.Seed, a.N)
+	})
 }
